@@ -236,7 +236,8 @@ def load_known(prop):
 
 
 def open_ids_for(prop):
-    return [e['id'] for e in load_known(prop) if e.get('status') == 'open']
+    ignore = [x for x in os.environ.get('VP_IGNORE_KNOWN', '').split(',') if x]   # harvesting tool only
+    return [e['id'] for e in load_known(prop) if e.get('status') == 'open' and e['id'] not in ignore]
 
 
 def _in_repo_frames(tb):
